@@ -162,7 +162,7 @@ pub fn property(tier: Tier) -> Property {
             cfg.gen.max_fv = 5;
             cfg.gen.max_depth = 2;
             cfg.gen.ops = Some(vec!["v", "f2", "g3", "g4", "h4", "g5", "c0", "p", "w", "lam"]);
-            cfg.weights = [1, 1, 4, 3, 1, 2, 3, 1, 4, 1, 2, 5];
+            cfg.weights = [1, 1, 4, 3, 1, 2, 3, 1, 4, 1, 2, 5, 3];
             (hist_strategy(cfg), proptest::collection::vec(any::<u16>(), 0..40), proptest::collection::vec(any::<bool>(), 0..16))
                 .prop_map(|(hist, perm, flips)| OrderCase { hist, perm, flips })
                 .boxed()
